@@ -101,6 +101,7 @@ static void c18_run(void) {
 	g.oracles = O_SPECIFIC;
 	g.specific = 1;
 	g.qkindmask = (1u << QK_SERIAL) | (1u << QK_CONC) | (1u << QK_GLOBAL);
+	if (g_chance(1, 4)) g.qkindmask |= 1u << QK_WORKLOOP;   // chains that end in a workloop
 	g.opmask |= (1u << OP_APPLY) | (1u << OP_BARRIER_AAW);
 	g.min_queues = 2; g.max_queues = 6; g.max_qdepth = 4; g.nest_pct = 40; g.nest_depth = 3;
 	g.min_clients = 2; g.max_clients = 4; g.max_ops = 7;
